@@ -68,6 +68,13 @@ def gen_inputs(seed, n_random):
                 tag_lists.append(list(reversed(l)) + ['income tax'])
     tag_lists += [[' income'], ['income '], ['incomes'], ['İncome'], ['INCOMĖ'], ['tranſfer'],
                   ['K'], ['inveſtment', 'x'], ['Income', 'income'], ['Épicerie', 'TRANSFER']]
+    # whitespace-like code points around a special tag: Python str.strip() and JS String.trim() (and any other
+    # normalisation both sides might apply) do not agree on all of them
+    edge = ['\x09', '\x0b', '\x0c', '\x1c', '\x1d', '\x1e', '\x1f', '\x85', '\xa0', '\u1680', '\u2003', '\u2028', '\u2029',
+            '\u202f', '\u205f', '\u3000', '\ufeff', '\u200b', '\u180e', '\x00']
+    for w in special:
+        for ch in edge:
+            tag_lists += [[ch + w], [w + ch], [ch + w.upper() + ch, 'food']]
     cases = [(a, t) for a in amounts for t in tag_lists]
     for _ in range(n_random):
         a = rnd.choice([rnd.uniform(-1e4, 1e4), rnd.randint(-10**6, 10**6) / 100.0, rnd.choice(amounts)])
